@@ -6,209 +6,192 @@ import os
 VERIF = os.path.dirname(os.path.dirname(os.path.abspath(__file__)))
 ALL = [f'C{i:02d}' for i in range(1, 19)]
 
+TB = 'trusted: Lean 4.33 kernel; axioms propext/Classical.choice/Quot.sound only (audited per theorem on every run); hand-written model tied to the code by the correspondence of this check (sampling, distribution in the evidence file)'
+
+# level, text, note, technique.  The level of a check is the one its module passes to core.Ctx (checked below).
 CHECKS = {
-    'C13': dict(
-        level='proof',
-        text='Lean 4 theorems about the model of the text helpers (SQL note literal cannot be ended early, expression '
-             'pass-through; norm idempotence staged), the model tied to pydbml/tools.py and the renderer utils by an '
-             'exhaustive/sampled differential check of all 14 L1 functions, and a model-free oracle that sends texts '
-             'through real render->parse at each of 12 text-bearing sites; excluded regions are named reasons with '
-             'committed witnesses (known_findings.json).',
-        note='trusted: Lean kernel; axioms propext/Classical.choice/Quot.sound; hand-written model tied by sampling; '
-             'CPython str/re semantics modelled; site round trip is decided by oracle on sampled texts, not yet by theorem',
-        technique='Lean 4 proof over hand-written model + differential correspondence + round-trip oracle',
-        design='6/C13'),
-}
-CHECKS.update({
-    'C18': dict(
-        level='proof',
-        text='Lean 4 theorems: the CREATE TABLE order is a permutation of the tables (perm, nodup, perm_tables) and a function '
-             'of table names and hosted inline references only (depends_only_on_model). The first clause (referenced tables '
-             'first) is false of the current code: kernel-checked witness chain_violates, replayed on the real code and '
-             'recorded as known finding KF-C18-hosts-first (tests pin the behaviour). Model tied to reorder_tables_for_sql / '
-             'db.sql by differential testing; order read back by an independent DDL reader.',
-        note='trusted: Lean kernel; axioms propext/Classical.choice/Quot.sound; model of sorted() as stable insertion sort, tied by sampling',
-        technique='Lean 4 proof (permutation, determinism, counter-example) + differential correspondence + DDL-reader oracle',
-        design='6/C18'),
+    'C01': dict(
+        level='translation_validation',
+        text='A Lean character-level model of the whole scannerless grammar (pyparsing primitives, every rule of pydbml/definitions '
+             'with its parse action, error stops, build_database) is tied to the real parser by differential testing on the corpus '
+             'and on documents written by an independent speller under random spelling choices; the parser-independent oracle is '
+             'that the parsed content equals the content the speller was given (nothing dropped, nothing invented, order kept) and '
+             'that spellings (incl. inline/short/block Ref and addressing) do not matter. Named departures from well-formedness '
+             'are replayed as known findings. No parse-of-spelling theorem exists (DESIGN 11.2); theorems about the same model '
+             'are claimed under C05/C06/C07/C08.',
+        note='trusted: hand-written model tied by sampling; the speller (harness/speller.py) as independent expected-model oracle',
+        technique='Lean parser model + differential correspondence + speller oracle'),
+    'C02': dict(
+        level='translation_validation',
+        text='Oracle on the real code: content(parse(db.dbml)) == content(db) and the 2nd and 3rd renderings are byte-identical, for '
+             'databases parsed from spelled documents (no exemption: whatever a parse returns must round-trip), built through the '
+             'public classes from Expressible values, the corpus, and wild API-built ones whose named reason outside Expressible '
+             'must be a listed finding. Correspondence: the Lean DBML renderer produces the same text and the Lean parser model '
+             'reads it back to the same content. Lexical round-trip theorems are claimed under C13 (string literals, note '
+             'normalisation idempotent).',
+        note='trusted: hand-written models tied by sampling; Expressible predicate (harness/expressible.py, mirrored by Domain.lean)',
+        technique='Lean renderer+parser models + differential correspondence + round-trip oracle'),
     'C03': dict(
         level='translation_validation',
         text='Lean model of the default SQL renderer tied to the code by differential testing of db.sql and of every '
-             'enum/column/index element rendering; model-free oracle reads db.sql back with an independent tokenising DDL '
-             'reader and compares types, tables (each exactly once), columns, keys, indexes and COMMENT ON with expectations '
-             'computed from the content. Theorems about the statement structure are staged (DESIGN 6/C03).',
-        note='trusted: hand-written model tied by sampling; DDL reader; oracle restricted to reader-hygienic names',
-        technique='Lean model + differential correspondence + DDL-reader oracle (theorems staged)',
-        design='6/C03'),
+             'enum/column/index element rendering; model-free oracle reads db.sql back with an independent tokenising DDL reader and '
+             'compares types, tables (each exactly once), columns, keys, indexes and COMMENT ON with expectations computed from the '
+             'content. Structural theorems about the model (script_structure, column_pk_component, default_component, '
+             'sql_column_ignores_props).',
+        note=TB + '; DDL reader (oracle restricted to reader-hygienic names)',
+        technique='Lean model + structural theorems + differential correspondence + DDL-reader oracle'),
     'C04': dict(
         level='translation_validation',
-        text='Lean model of reference rendering tied to the code by differential testing of the FOREIGN KEY lines of db.sql '
-             '(with their enclosing CREATE TABLE) and of every reference.sql; oracle: every FK read back by the independent DDL '
-             'reader with its host and compared as a multiset with expectations computed from the references (direction, '
-             'column order, CONSTRAINT, actions, inline vs ALTER never both, join tables).',
-        note='trusted: hand-written model tied by sampling; DDL reader',
-        technique='Lean model + differential correspondence + DDL-reader oracle (theorems staged)',
-        design='6/C04'),
-})
-CHECKS.update({
-    'C09': dict(
-        level='translation_validation',
-        text='Lean state machine of Database.add/delete/rename over a universe of clashing objects, tied to the real classes by '
-             'running the same operation histories on both sides (all pairs/triples of 34 core operations, random histories to '
-             'length 60) and comparing outcome and canonical state after every step; model-free oracle (lists = added and not '
-             'deleted, back-pointers, lookup under current names, snapshots around rejected calls); table-level column/index '
-             'histories by oracle. Invariant theorems staged.',
-        note='trusted: hand-written model tied by sampling; identity modelled by universe indices',
-        technique='Lean state-machine model + history correspondence + invariant oracle (invariant proof staged)',
-        design='6/C09'),
-})
-CHECKS.update({
-    'C10': dict(
-        level='translation_validation',
-        text='The Lean renderer models are functions of the content alone; after every random sequence of 1-15 in-place edits '
-             '(30 edit kinds, renderings evaluated before and between edits) db.sql and db.dbml of the real objects must equal '
-             'the model rendering of the content read off the live objects, and (model-free oracle) every database and element '
-             'rendering must equal that of a database freshly built with the final content.',
-        note='no theorem is specific to C10: freedom from caches is a property of the implementation, reached only through the correspondence and the fresh-build oracle',
-        technique='Lean renderer model + differential correspondence after edit histories + fresh-build oracle',
-        design='6/C10'),
-    'C16': dict(
-        level='proof',
-        text='Lean theorems state the dispatch logic outright (attached top-level elements and columns use the configured '
-             'renderer classes, detached elements and owner-less kinds the defaults, a missing handler yields the empty string) '
-             'and prove the join structure of db.dbml / db.sql in the model (each element rendering once, in the documented '
-             'order; tables exactly once via C18.perm). The dispatch model is tied to the code by enumerating handler subsets x '
-             'element kinds x attachment x 5 parser routes; join structure and absence of side effects are checked by oracle on '
-             'the real renderers (all renderings in random orders with repeats, model snapshot before/after).',
-        note='purity is monitored, not proved (definitional in Lean); trusted: Lean kernel, standard axioms, hand-written model tied by sampling',
-        technique='Lean 4 proof (dispatch decision logic, join structure) + exhaustive/sampled correspondence + purity monitor',
-        design='6/C16'),
-    'C17': dict(
-        level='proof',
-        text='Decision logic stated outright and proved in Lean over the model of check_attributes_for_sql and the reference '
-             'validations (required attribute unset -> AttributeMissing; detached endpoint -> TableNotFound in SQL and DBML; mixed '
-             'side -> DBMLError for table1/table2/dbml; composite inline -> DBMLError; detached get_refs). The model is tied to '
-             'the real classes by exhaustive enumeration of the finite case space (element kinds x unset subsets x attachment x '
-             'construction route; all endpoint assignments x kinds x inline), and the statement is evaluated directly on the real objects.',
-        note='trusted: Lean kernel, standard axioms; model tied by exhaustive enumeration of its finite domain',
-        technique='Lean 4 proof of decision logic + exhaustive correspondence',
-        design='6/C17'),
-})
-CHECKS.update({
-    'C01': dict(
-        level='translation_validation',
-        text='A Lean character-level model of the whole scannerless grammar (pyparsing primitives, every rule of '
-             'pydbml/definitions with its parse action, error stops, build_database) is tied to the real parser by differential '
-             'testing on the corpus and on documents written by an independent speller under random spelling choices; the '
-             'parser-independent oracle is that the parsed content equals the content the speller was given (nothing dropped, '
-             'nothing invented, order kept) and that spellings (incl. inline/short/block Ref and addressing) do not matter. '
-             'Named departures from WF are replayed as known findings. The Lean theorem C01_faithful over the model is staged.',
-        note='trusted: hand-written model tied by sampling; the speller; theorem about parse∘spell not yet proved',
-        technique='Lean parser model + differential correspondence + speller oracle (theorem staged)',
-        design='6/C01'),
-    'C02': dict(
-        level='translation_validation',
-        text='Oracle on the real code: content(parse(db.dbml)) == content(db) and the 2nd and 3rd renderings are byte-identical, '
-             'for databases parsed from spelled documents, built through the public classes from Expressible values, the corpus, '
-             'and wild API-built ones whose named reason outside Expressible must be a listed finding. Correspondence: the Lean '
-             'DBML renderer produces the same text and the Lean parser model reads it back to the same content.',
-        note='trusted: hand-written models tied by sampling; Expressible predicate (harness/expressible.py); round-trip theorem staged',
-        technique='Lean renderer+parser models + differential correspondence + round-trip oracle (theorem staged)',
-        design='6/C02'),
-})
-CHECKS.update({
-    'C06': dict(
-        level='translation_validation',
-        text='A well-formed spelled document plus one injected declaration breaking one rule (13 kinds, any spelling, any '
-             'position): the real parser must raise exactly the error class of the rule and never return a database; the Lean '
-             'parser+build model must give the same class on every such document.',
-        note='trusted: hand-written model tied by sampling; the speller; theorem C06_reject staged',
-        technique='Lean parser/build model + differential correspondence + violation-injection oracle',
-        design='6/C06'),
-})
-CHECKS.update({
-    'C07': dict(
-        level='translation_validation',
-        text='Faults of kinds no valid spelling contains (unbalanced structural bracket, column without type, unknown setting / '
-             'index type / operator / action, malformed colour, trailing garbage, unterminated last string) are injected into '
-             'valid spelled documents at every/random positions: the real parser must never return a database. The Lean '
-             'character-level parser model must return the same verdict class on every faulty text and on random token/character '
-             'mutants and token soups. Theorem: the model accepts only when StringEnd succeeds on the remaining input '
-             '(accepts_only_whole_input); prefix/balance invariants are staged.',
-        note='trusted: hand-written model tied by sampling; rejection at every position is explored, not proved',
-        technique='Lean parser model + verdict correspondence + fault-injection oracle (+ whole-input theorem)',
-        design='6/C07'),
-    'C08': dict(
-        level='translation_validation',
-        text='Any text: the class of an escaping exception must be a parse error, a pydbml exception or SyntaxError, and every '
-             'rendering (database and each element, sql and dbml) of an accepted database must not raise a foreign exception. '
-             'Inputs: 50 edge documents, wild renderings, mutants, soups, spliced fragments, random Unicode. The Lean model makes '
-             'the partial Python operations explicit and must predict the same outcome class for parse, db.sql and db.dbml.',
-        note='ParseResults access sites inside parse actions are outside the model (pyparsing naming semantics): carried by exploration',
-        technique='Lean parser/renderer model with explicit partial operations + outcome-class correspondence + exploration',
-        design='6/C08'),
-})
-CHECKS.update({
+        text='Lean model of reference rendering tied to the code by differential testing of the FOREIGN KEY lines of db.sql (with '
+             'their enclosing CREATE TABLE) and of every reference.sql; oracle: every FK read back by the independent DDL reader with '
+             'its host and compared as a multiset with expectations computed from the references (direction, column order, '
+             'CONSTRAINT, actions, inline vs ALTER never both, join tables incl. name and schema). Nine theorems about the model '
+             'state the direction / once-only / join-table rules (C04.lean).',
+        note=TB + '; DDL reader',
+        technique='Lean model + theorems + differential correspondence + DDL-reader oracle'),
     'C05': dict(
         level='translation_validation',
-        text='Oracle on real parsed graphs: every identity fact of the statement evaluated with `is` (reference endpoints are the '
-             'very Column objects of the database\'s tables under schema.name / bare / alias addressing, inline references start at '
-             'the declaring column, back-pointers of columns, indexes and all notes, index subjects, enum links, group members, '
-             'lookup by index / full name / alias, get_refs, unique SQL key holder). Theorems: every table/column position the '
-             'model\'s build produces for a reference is in range (links never dangle, never point to a copy); the model is tied '
-             'by the parse correspondence where links are positions read off with `is`.',
-        note='trusted: Lean kernel + standard axioms for the range theorems; hand-written Build model tied by sampling',
-        technique='Lean build model + range theorems + identity oracle on real graphs',
-        design='6/C05'),
-    'C12': dict(
+        text='Oracle on real parsed graphs: every identity fact of the statement evaluated with `is` (reference endpoints are the very '
+             'Column objects of the tables under schema.name / bare / alias addressing, inline references start at the declaring '
+             'column, back-pointers of columns, indexes and notes, index subjects, enum links, group members, lookups, get_refs, '
+             'unique SQL key holder). Theorems: every table/column position the build produces for a reference is in range '
+             '(build_refs_in_range, locateTable_in_range, locateCols_in_range, findKey_in_range); C08.build_wellLinked extends this '
+             'to every stored position of a parsed database.',
+        note=TB,
+        technique='Lean build model + range theorems + identity oracle on real graphs'),
+    'C06': dict(
         level='proof',
-        text='Lean theorems over the model of the entry points: all accepting routes hand the parser the same text (one leading BOM '
-             'removed) and the same options (parse_file: the defaults), so they produce equal outcomes; a BOM is ignored on every '
-             'route; other source types are refused with TypeError. The model is tied to the code by running all 8 routes on the '
-             'same texts (plain, BOM, double BOM, non-ASCII, invalid) and comparing outcomes with the model and pairwise.',
-        note='UTF-8 decoding of files is Python\'s (trusted); Lean kernel, standard axioms; Entry model tied by enumeration of routes x sampled texts',
-        technique='Lean 4 proof over entry-point model + route-by-route correspondence',
-        design='6/C12'),
-    'C15': dict(
+        text='Theorems about the build model for ANY blueprint list / text: build_rule_abiding (a returned database has pairwise '
+             'key-disjoint tables incl. aliases, pairwise different enums, group names, duplicate-free group items, pairwise unequal '
+             'references, and holds every declaration in order - so a clash never yields a database), the error of each rule '
+             '(addTable_error/_clash, addEnum_error, enumStep_error, buildGroup_error, groupStep_twice), lookups bind to exactly the '
+             'key asked for or end in TableNotFoundError (locateTable_sound/_error/_complete), and parseDoc_tables_ok (no column-less '
+             'table leaves the grammar). Tie: a well-formed spelled document plus one injected violation (13 kinds, any spelling, any '
+             'position) must raise exactly the error class of the rule on the real parser and in the model.',
+        note=TB + '; which of several simultaneous violations is reported first is covered by correspondence, not by a theorem',
+        technique='Lean 4 proof over parser/build model + violation-injection correspondence'),
+    'C07': dict(
         level='translation_validation',
-        text='Spelled documents with table and column properties parsed with the option on (stored exactly, order kept, next to '
-             'ordinary settings; flag set) and off (syntax error iff a property is present; otherwise identical content and '
-             'renderings), rendering followed through three flips of the database flag at database, table and column level, and '
-             'round trip with the flag on. The Lean parser model must agree under both option values; the model rendering with the '
-             'flag off must equal the rendering with properties erased. Theorems staged.',
-        note='trusted: hand-written models tied by sampling',
-        technique='Lean parser/renderer models + correspondence under both option values + flag-flip oracle',
-        design='6/C15'),
-})
-CHECKS.update({
+        text='Faults of kinds no valid spelling contains (unbalanced structural bracket, column without type, unknown setting / index '
+             'type / operator / action, property syntax with the option off, malformed colour, duplicated groups/words, trailing '
+             'garbage, unterminated last string) are injected into valid spelled documents: the real parser must never return a '
+             'database. The Lean character-level parser model must return the same verdict class on every faulty text and on random '
+             'token/character mutants and token soups. Theorems: the model accepts only when StringEnd succeeds on the remaining '
+             'input (accepts_only_whole_input, stringEnd_ok, advance_suffix, skipWs_suffix).',
+        note=TB + '; rejection at every position is explored, not proved',
+        technique='Lean parser model + whole-input theorem + verdict correspondence + fault-injection oracle'),
+    'C08': dict(
+        level='proof',
+        text='Theorems for ANY input text, through a program logic over the parser monad (Hoare.lean: Raises/Post closed under every '
+             'combinator, no primitive raises): parse_outcome (a database, a parse error, SyntaxError, a library exception, or '
+             'ValueError from int() on more than 4300 digits = known finding, numberValue_raises_only_long), buildDatabase_error, '
+             'parsed_sql_total (.sql of a parsed database evaluates: build_wellLinked + sql_total), parsed_dbml_total_partial (.dbml '
+             'evaluates unless a Project/TableGroup name holds a line break or an inline reference is composite - the two known '
+             'findings, exhibited in the model by dbml_raises_*). Tie: outcome class of parse / every rendering on 50 edge documents, '
+             'wild renderings, brace-ified documents, mutants, soups, spliced fragments, random Unicode vs the model.',
+        note=TB + '; ParseResults access inside parse actions and CPython recursion limits are outside the model',
+        technique='Lean 4 proof (program logic over the grammar model, totality of renderers) + outcome-class correspondence'),
+    'C09': dict(
+        level='proof',
+        text='Lean state machine of Database.add/delete/rename over a universe of clashing objects with theorems step_inv, reach_inv, '
+             'init_inv (invariant of every reachable state), rejected_unchanged, tables_step, lookup_sound, project_replaced; tied to '
+             'the real classes by running the same operation histories on both sides (all pairs/triples of core operations, random '
+             'histories to length 60) and comparing outcome and canonical state after every step; model-free invariant oracle; '
+             'table-level column/index histories by oracle only.',
+        note=TB + '; identity modelled by universe indices; table-level (add/delete column, index) is not in the theorem',
+        technique='Lean 4 proof (invariant by induction over operations) + history correspondence + invariant oracle'),
+    'C10': dict(
+        level='translation_validation',
+        text='The Lean renderer models are functions of the content alone; after every random sequence of 1-15 in-place edits (30 edit '
+             'kinds, renderings evaluated before and between edits) db.sql and db.dbml of the real objects must equal the model '
+             'rendering of the content read off the live objects, and (model-free oracle) every database and element rendering must '
+             'equal that of a database freshly built with the final content.',
+        note='no theorem is specific to C10 (in the value model it is definitional): freedom from caches is a property of the implementation, reached only through the correspondence and the fresh-build oracle',
+        technique='Lean renderer model + differential correspondence after edit histories + fresh-build oracle'),
     'C11': dict(
         level='other',
         text='In the Lean model parsing is a function of (text, options): determinism, history independence and interleaving '
              'independence hold there by construction, so no theorem is claimed. That the implementation has no hidden state is '
-             'monitored on every run: results after random call histories (including half-way failures) and under 16 '
-             'barrier-started threads equal the fresh results and the pure model; the module-level pyparsing grammar is '
-             'fingerprinted before/after (identities, parse-action counts, results names, children) together with '
-             'Blueprint.parser; results of different calls share no mutable state (edits of one never show in another nor in later '
-             'parses); dropped results are reclaimed (weak references, live-object census).',
+             'monitored on every run: results after random call histories (including half-way failures) and under 16 barrier-started '
+             'threads equal the fresh results and the pure model; the module-level pyparsing grammar is fingerprinted before/after; '
+             'results of different calls share no mutable object; dropped results are reclaimed (weak references, live-object census).',
         note='partial by nature: CPython scheduling, the GIL and the collector are outside any executable model; the monitors are the evidence',
-        technique='pure Lean model as reference + runtime monitors (history, threads, fingerprint, aliasing, weakrefs)',
-        design='6/C11'),
+        technique='pure Lean model as reference + runtime monitors (history, threads, fingerprint, aliasing, weakrefs)'),
+    'C12': dict(
+        level='proof',
+        text='Lean theorems over the model of the entry points (routes_agree_on_text, options_unchanged, parse_file_defaults, '
+             'routes_agree, routes_agree_default, bom_ignored, other_type_refused): all accepting routes hand the parser the same text '
+             '(one leading BOM removed) and the same options, so they produce equal outcomes; other source types are refused. Tied to '
+             'the code by running all 8 routes on the same texts (plain, empty, BOM, double BOM, non-ASCII, invalid) and comparing '
+             'outcomes with the model and pairwise.',
+        note=TB + "; UTF-8 decoding of files is Python's",
+        technique='Lean 4 proof over entry-point model + route-by-route correspondence'),
+    'C13': dict(
+        level='proof',
+        text='Lean theorems about the model of the text helpers: norm_idem (note normalisation idempotent on every text without exotic '
+             'blank lines; norm_not_idem_exotic shows the hypothesis tight = known finding), removeIndentation_idem, sql_text_no_quote, '
+             'sql_note_literal, sql_expr_verbatim, and the lexical round trip unquote_prepare, scanQ1_prepare, scanQ3_prepare, '
+             'stringLiteral_reads_one_line, stringLiteral_reads_triple. Tie: exhaustive/sampled differential check of 14 text '
+             'functions; model-free oracle sends texts through real render->parse at each of 12 text-bearing sites; excluded regions '
+             'are named reasons with committed witnesses.',
+        note=TB + '; CPython str/re semantics modelled; site round trip beyond the lexical layer is decided by oracle on sampled texts',
+        technique='Lean 4 proof over hand-written model + differential correspondence + round-trip oracle'),
     'C14': dict(
         level='translation_validation',
-        text='Metamorphic oracle on the real parser: each spelled document in three versions with the same base spelling (no '
-             'comments / two independent random placements of // and /* */ comments above elements, trailing before or after '
-             'settings, and at discarding positions): the content minus comment attributes must be identical and the comment '
-             'attributes must be those the placement rules predict (trailing beats above). Rendering oracle with hostile comment '
-             'texts: SQL statements read back by the DDL reader are unchanged by comments, every comment line carries its marker, '
-             'DBML re-parses to the same content and comments. Lean theorem comment_lines_prefixed proves the marker property for '
-             'every text; parser and renderer models must agree on all generated cases.',
-        note='trusted: hand-written models tied by sampling; placement rules of the speller; theorem covers the line-prefix clause only',
-        technique='Lean models + theorem on comment rendering + metamorphic placement oracle + DDL-reader oracle',
-        design='6/C14'),
-})
+        text='Metamorphic oracle on the real parser: each spelled document in three versions with the same base spelling (no comments / '
+             'two independent random comment placements): the content minus comment attributes must be identical and the comment '
+             'attributes those the placement rules predict. Rendering oracle with hostile comment texts: SQL statements read back by '
+             'the DDL reader are unchanged by comments, every comment line carries its marker, DBML re-parses to the same content and '
+             'comments. Theorems comment_lines_prefixed, comment_ends_with_newline, splitNL_joinNL.',
+        note=TB + '; placement rules of the speller; the theorems cover the line-prefix clause only',
+        technique='Lean models + theorem on comment rendering + metamorphic placement oracle + DDL-reader oracle'),
+    'C15': dict(
+        level='translation_validation',
+        text='Spelled documents with table and column properties parsed with the option on (stored exactly, order kept; flag set; same '
+             'through the Path and open-file routes) and off (syntax error iff a property is present; otherwise identical content and '
+             'renderings), rendering followed through three flips of the database flag at database, table and column level, and round '
+             'trip with the flag on. Theorems: with the flag off the renderings do not depend on the stored properties '
+             '(column_props_hidden, table_props_hidden, sql_column_ignores_props, ...).',
+        note=TB,
+        technique='Lean parser/renderer models + gate theorems + correspondence under both option values + flag-flip oracle'),
+    'C16': dict(
+        level='proof',
+        text='Lean theorems state the dispatch logic outright (attached_uses_configured, detached_uses_default, unsupported_is_empty, '
+             'ownerless_kinds_use_default) and prove the join structure of db.dbml / db.sql in the model (dbml_is_join_of_elements, '
+             'project_segment, sql_is_join_of_elements). Tied to the code by enumerating handler subsets x element kinds x attachment '
+             '(incl. deleted elements) x parser routes; join structure and absence of side effects checked by oracle on the real '
+             'renderers.',
+        note=TB + '; purity is monitored, not proved (definitional in Lean)',
+        technique='Lean 4 proof (dispatch decision logic, join structure) + exhaustive/sampled correspondence + purity monitor'),
+    'C17': dict(
+        level='proof',
+        text='Decision logic stated outright and proved in Lean over the model of check_attributes_for_sql and the reference validations '
+             '(required_unset_refused, complete_renders, detached_endpoint_sql/dbml, mixed_side_tables, mixed_side_dbml, '
+             'composite_inline_dbml, detached_get_refs). Tied to the real classes by exhaustive enumeration of the finite case space, '
+             'and the statement is evaluated directly on the real objects.',
+        note=TB + '; model tied by exhaustive enumeration of its finite domain',
+        technique='Lean 4 proof of decision logic + exhaustive correspondence'),
+    'C18': dict(
+        level='proof',
+        text='Lean theorems: the CREATE TABLE order is a permutation of the tables (perm, nodup, perm_tables) and a function of table '
+             'names and hosted inline references only (depends_only_on_model). The first clause (referenced tables first) is false of '
+             'the current code: kernel-checked witness chain_violates, replayed on the real code and recorded as known finding '
+             'KF-C18-hosts-first (tests pin the behaviour). Model tied to reorder_tables_for_sql / db.sql by differential testing; '
+             'order read back by an independent DDL reader.',
+        note=TB + '; sorted() modelled as stable insertion sort',
+        technique='Lean 4 proof (permutation, determinism, counter-example) + differential correspondence + DDL-reader oracle'),
+}
+for _pid, _c in CHECKS.items():
+    _c.setdefault('design', '6/' + _pid + ', 11.3')
 UNDER_CONSTRUCTION = 'check under construction (model and harness being built; see DESIGN.md)'
 
 
 def main():
+    import re
+    for pid, c in CHECKS.items():
+        src = open(os.path.join(VERIF, 'harness', 'props', pid.lower() + '.py')).read()
+        lv = re.search(r"core\.Ctx\(PID, tier, seed, '([a-z_]+)'", src).group(1)
+        assert lv == c['level'], (pid, lv, c['level'])
     checks = []
     for pid in ALL:
         if pid not in CHECKS:
